@@ -44,6 +44,46 @@ fn addrs() -> &'static Vec<String> {
     P.get_or_init(|| (0..80).map(|i| mk_addr(&format!("member-{i}"))).collect())
 }
 
+/// The item a client saw last has been removed in the meantime: continuing with its key as cursor (a cursor taken
+/// from a previous page) still returns every later current item exactly once, in order.
+fn check_stale_cursor<K: Clone + Ord + Debug>(h: &mut Hist, name: &str, mut remaining: Vec<(K, String)>, cursor: K, fetch: &dyn Fn(Option<K>, Option<u32>) -> Res<Vec<(K, String)>>) -> bool {
+    remaining.sort_by(|a, b| a.0.cmp(&b.0));
+    let want: Vec<K> = remaining.iter().map(|e| e.0.clone()).filter(|k| *k > cursor).collect();
+    for limit in [None, Some(1u32), Some(4), Some(30)] {
+        let mut got: Vec<K> = vec![];
+        let mut cur = Some(cursor.clone());
+        let mut pages = 0;
+        loop {
+            let page = match fetch(cur.clone(), limit) {
+                Res::Ok(p) => p,
+                other => {
+                    h.violate(&format!("C20/{name}/query-failed"), format!("stale cursor {cursor:?} limit {limit:?}: {}", other.err_text()));
+                    return false;
+                }
+            };
+            if page.is_empty() {
+                break;
+            }
+            cur = page.last().map(|e| e.0.clone());
+            got.extend(page.into_iter().map(|e| e.0));
+            pages += 1;
+            if pages > 200 {
+                break;
+            }
+        }
+        h.out.oracle_checks += 1;
+        if got != want {
+            h.violate(
+                &format!("C20/{name}/continuing-from-a-removed-item-skips-or-repeats"),
+                format!("limit {limit:?}: after the item {cursor:?} a client had been given was removed, continuing from it returned {} of {} later items; first difference at {:?}", got.len(), want.len(), got.iter().zip(want.iter()).position(|(a, b)| a != b)),
+            );
+            return false;
+        }
+    }
+    h.out.count("walks_continued_from_a_removed_item");
+    true
+}
+
 /// Walk a listing with every limit and compare with the expected sequence.
 /// `fetch(cursor, limit)` returns one page of (key, value-as-string).
 fn check_listing<K: Clone + Ord + Debug>(
@@ -260,9 +300,10 @@ impl C20 {
                     h.out.count("listings_after_migration_from_pre_0_14");
                     h.note(format!("token migrated from {v} (by-spender index rebuilt by migrate)"));
                 }
+                let expected_all = expected.clone();
                 let cc = &c;
                 let hubr = &hub;
-                check_listing(
+                let walked = check_listing(
                     h,
                     name,
                     expected,
@@ -280,7 +321,33 @@ impl C20 {
                         let (o, s) = if by_owner { (hubr.clone(), k.clone()) } else { (k.clone(), hubr.clone()) };
                         cc.query::<cw20::AllowanceResponse, _>(&t, &cw20_base::msg::QueryMsg::Allowance { owner: o, spender: s }).ok().map(|x| format!("{}/{:?}", x.allowance, Exp::from(&x.expires)))
                     },
-                )
+                );
+                if !walked {
+                    return false;
+                }
+                // an allowance a client has just been given is revoked before the client asks for the next page
+                let mut rest = expected_all;
+                if rest.len() >= 3 {
+                    rest.sort();
+                    let victim = rest[rest.len() / 3].0.clone();
+                    let (o, sp) = if by_owner { (hub.clone(), victim.clone()) } else { (victim.clone(), hub.clone()) };
+                    let r = c.exec(&o, &t, &cw20::Cw20ExecuteMsg::DecreaseAllowance { spender: sp, amount: Uint128::new(u128::MAX), expires: None }, &[]);
+                    if r.is_ok() {
+                        rest.retain(|e| e.0 != victim);
+                        let cc = &c;
+                        let hubr = &hub;
+                        return check_stale_cursor(h, name, rest, victim, &|cur, lim| {
+                            if by_owner {
+                                cc.query::<cw20::AllAllowancesResponse, _>(&t, &cw20_base::msg::QueryMsg::AllAllowances { owner: hubr.clone(), start_after: cur, limit: lim })
+                                    .map_vec(|r| r.allowances.into_iter().map(|x| (x.spender, format!("{}/{:?}", x.allowance, Exp::from(&x.expires)))).collect())
+                            } else {
+                                cc.query::<cw20::AllSpenderAllowancesResponse, _>(&t, &cw20_base::msg::QueryMsg::AllSpenderAllowances { spender: hubr.clone(), start_after: cur, limit: lim })
+                                    .map_vec(|r| r.allowances.into_iter().map(|x| (x.owner, format!("{}/{:?}", x.allowance, Exp::from(&x.expires)))).collect())
+                            }
+                        });
+                    }
+                }
+                true
             }
             "subkeys.AllAllowances" | "subkeys.AllPermissions" => {
                 let admin = mk_addr("sk-admin");
@@ -509,15 +576,34 @@ impl C20 {
                         h.out.count("listings_after_removals");
                     }
                 }
-                let cc = &c;
-                check_listing(
-                    h,
-                    name,
-                    expected,
-                    false,
-                    &|cur, lim| cc.query::<MemberListResponse, _>(&g, &cw4_group::msg::QueryMsg::ListMembers { start_after: cur, limit: lim }).map_vec(|r| r.members.into_iter().map(|m| (m.addr, m.weight.to_string())).collect()),
-                    &|k| cc.query::<MemberResponse, _>(&g, &cw4_group::msg::QueryMsg::Member { addr: k.clone(), at_height: None }).ok().and_then(|r| r.weight).map(|w| w.to_string()),
-                )
+                {
+                    let cc = &c;
+                    if !check_listing(
+                        h,
+                        name,
+                        expected.clone(),
+                        false,
+                        &|cur, lim| cc.query::<MemberListResponse, _>(&g, &cw4_group::msg::QueryMsg::ListMembers { start_after: cur, limit: lim }).map_vec(|r| r.members.into_iter().map(|m| (m.addr, m.weight.to_string())).collect()),
+                        &|k| cc.query::<MemberResponse, _>(&g, &cw4_group::msg::QueryMsg::Member { addr: k.clone(), at_height: None }).ok().and_then(|r| r.weight).map(|w| w.to_string()),
+                    ) {
+                        return false;
+                    }
+                }
+                // a member a client has just been given is removed before the client asks for the next page
+                if expected.len() >= 3 {
+                    expected.sort();
+                    let victim = expected[expected.len() / 3].0.clone();
+                    c.advance(1, 5);
+                    let r = c.exec(&owner, &g, &cw4_group::msg::ExecuteMsg::UpdateMembers { remove: vec![victim.clone()], add: vec![] }, &[]);
+                    if r.is_ok() {
+                        expected.retain(|e| e.0 != victim);
+                        let cc = &c;
+                        return check_stale_cursor(h, name, expected, victim, &|cur, lim| {
+                            cc.query::<MemberListResponse, _>(&g, &cw4_group::msg::QueryMsg::ListMembers { start_after: cur, limit: lim }).map_vec(|r| r.members.into_iter().map(|m| (m.addr, m.weight.to_string())).collect())
+                        });
+                    }
+                }
+                true
             }
             "stake.ListMembers" => {
                 let st = match c.instantiate(
@@ -618,7 +704,7 @@ impl Monitor for C20 {
         (LISTINGS.len() * SIZES.len()) as u64 + tier.pick(160, 60_000)
     }
     fn mandatory(&self) -> Vec<&'static str> {
-        let mut v = vec!["walks_completed", "walks_with_default_limit", "walks_with_limit_above_max", "walks_with_limit_zero", "states_with_more_than_30_items", "states_with_no_items", "listings_with_expired_entries_interleaved", "listings_after_removals", "listings_after_migration_from_pre_0_14", "listings_with_a_contiguous_run_of_30_or_more_expired_entries"];
+        let mut v = vec!["walks_completed", "walks_with_default_limit", "walks_with_limit_above_max", "walks_with_limit_zero", "states_with_more_than_30_items", "states_with_no_items", "listings_with_expired_entries_interleaved", "listings_after_removals", "listings_after_migration_from_pre_0_14", "listings_with_a_contiguous_run_of_30_or_more_expired_entries", "walks_continued_from_a_removed_item"];
         v.extend([
             "listing_cw20.AllAccounts",
             "listing_cw20.AllAllowances",
